@@ -5,7 +5,7 @@ import ast
 from .. import AnalysisError
 from ..cfg import ALL_KINDS, NORMAL_KINDS, iter_own
 from ..guards import canon
-from ..lib import _single_return, attr_stores, dominated_by, guard_forms, key_of, norm, render, type_is
+from ..lib import _single_return, attr_stores, collections_from, dominated_by, guard_forms, key_of, norm, render, type_is
 from ..report import describe, rule
 
 P = "C06"
@@ -197,11 +197,10 @@ def c06_5(ctx, r):
     ex = ctx.arg_for(s, qinit, "existing_jobs")
     ok = False
     if isinstance(ex, ast.Name):
-        for n in ctx.nodes_of(run, s.node):
-            ud = ctx.rd(run).unique_def(n, ex.id)
-            if ud and isinstance(ud[1], ast.ListComp):
-                g = ud[1].generators[0]
-                ok = "Cluster.iter_hpc_job_ids" in render(ctx, run, g.iter) and not g.ifs and "create_from_id" in ctx.src(ud[1].elt) and ctx.src(ud[1].elt.args[-1]) == ctx.src(g.target)
+        # either form of the collection: [create_from_id(..., v) for v in iter_hpc_job_ids()] or the loop with append
+        for c in collections_from(ctx, run, lambda e: "Cluster.iter_hpc_job_ids" in render(ctx, run, e)):
+            if c["into"] == ex.id and not c["conds"] and "create_from_id" in c["elt"] and c["elt"].replace(" ", "").endswith(",_)"):
+                ok = True
     r.check(ok, "the round's queue starts with every persisted active id", key_of(run, "existing jobs"), s.loc,
             "the queue is not pre-filled with all persisted hpc_job_ids: batches still running are not counted and more than max-nodes are submitted", "each round re-derives the number of active batches")
     # each carried-over batch is its own queue entry: JobQueue keys existing entries by .name, so the stand-in object built
